@@ -60,6 +60,8 @@ def scenarios(quick):
         for fmode in (0o644, 0o444):
             for base in (None, "match", "stale"):
                 out.append(dict(entry=entry, kind="overwrite", base=base, parent="present", fmode=fmode))
+        for fmode in (0o666, 0o775, 0o604):      # modes that share bits with common umasks (022, 077): the file's mode is kept exactly, whatever the umask
+            out.append(dict(entry=entry, kind="overwrite", base=None, parent="present", fmode=fmode))
         if entry != "atomic":
             for base in (None, "match", "stale") if entry == "tool" else (None,):
                 out.append(dict(entry=entry, kind="changes", base=base, parent="present", fmode=0o640))
